@@ -362,6 +362,19 @@ fn run_job(args: &Args, job: &Value, seq: usize) -> Value {
     }
     let rootpath = tree::join(&sb, rootrel);
     let op = job["op"].clone();
+    if op["k"].as_str() == Some("capi_errors") {
+        let root = Root::open(&rootpath).expect("root");
+        use std::os::unix::io::AsFd;
+        out["res"] = capi::error_stress(
+            root.as_fd().as_raw_fd(),
+            op["threads"].as_u64().unwrap_or(4) as usize,
+            op["per_thread"].as_u64().unwrap_or(50) as usize,
+            op["seed"].as_u64().unwrap_or(1),
+        );
+        drop(root);
+        let _ = std::fs::remove_dir_all(&sb);
+        return out;
+    }
     if op["k"].as_str() == Some("reopen_unshared") {
         out["res"] = reopen_unshared(&rootpath, &sb, &op);
         let _ = std::fs::remove_dir_all(&sb);
